@@ -169,6 +169,10 @@ def write_struct(representation_code: RepresentationCode, value: Any) -> bytes:
     if representation_code in (RepresentationCode.OBNAME, RepresentationCode.OBJREF):
         # references to items are not cached: an item can be renamed or assigned to another origin
         return _struct_dict[representation_code](value)
+    if representation_code is RepresentationCode.DTIME:
+        # date-times are not cached either: equal date-times can be different instants ('fold' in a repeated hour;
+        # naive date-times mean local time, and the local time zone of the process can change)
+        return _struct_dict[representation_code](value)
     return _write_struct(representation_code, value)
 
 
